@@ -224,6 +224,66 @@ def reparent_sequence(ctx):
         except Exception as e:  # noqa: BLE001
             ctx.ctr("reparent_to_xml_raised")
     ctx.ctr("reparent_moves", n)
+    api_histories(ctx)
+
+
+def api_histories(ctx):
+    """Builder-API histories: 'include' rows (one section pulled in several times) and render / add_child / render."""
+    from pyxform.errors import PyXFormError
+
+    from .. import apiseq
+    W = lambda **kw: dict(klass="reparent", **kw)  # replayed by re-running the API sequences  # noqa: E731
+    for i in range(40):
+        rng = ctx.rng("include", i)
+        sv, info = apiseq.include_survey(rng)
+        ctx.case(sig=f"include|{info['n_includes']}|{len(info['triggers'])}")
+        ctx.ctr("api_histories")
+        try:
+            p = xf.Parsed(sv.to_xml(validate=False, pretty_print=False))
+        except Exception as e:  # noqa: BLE001
+            ctx.viol(f"include:raised:{type(e).__name__}", f"a form with {info['n_includes']} include rows failed: {e}"[:300], W(main_md=info["main_md"]))
+            continue
+        for key, what in invariants.c02_closure(p):
+            ctx.viol(f"include:{key}", what, W(main_md=info["main_md"]))
+        bound = {b.get("nodeset") for b in p.binds()}
+        refs = {el.get("ref") for el in p.body.iter() if isinstance(el.tag, str) and el.get("ref")}
+        for n in info["included_nodes"]:
+            if not p.resolve(n) or n not in bound or n not in refs:
+                ctx.viol("include:included-node-without-own-bind-or-control", f"{n}: node={bool(p.resolve(n))} bind={n in bound} control={n in refs} ({info['n_includes']} inclusions of one section)",
+                         W(main_md=info["main_md"]))
+    for i in range(40):
+        rng = ctx.rng("multistep", i)
+        o = drive.call_convert({"survey": [{"type": "text", "name": "name", "label": "N"},
+                                           {"type": "begin repeat", "name": "members", "label": "M"}, {"type": "begin group", "name": "contact", "label": "C"},
+                                           {"type": "text", "name": "phone", "label": "P"}, {"type": "end group"}, {"type": "end repeat"}]})
+        if not o.ok:
+            continue
+        sv = o.result._survey
+        sv.to_xml(validate=False)
+        contact = next(e for e in sv.iter_descendants() if e.name == "contact")
+        target = rng.choice([sv, contact, contact.parent])
+        # (1) a legitimate addition after a render
+        target.add_child(apiseq.question({"type": "text", "name": f"extra{i}", "label": "E"}))
+        ctx.case(sig=f"multistep|{target.name}")
+        ctx.ctr("api_histories")
+        try:
+            p = xf.Parsed(sv.to_xml(validate=False))
+            for key, what in invariants.c02_closure(p):
+                ctx.viol(f"multistep:{key}", what, W(step="add legit child after render"))
+            path = "/" + "/".join(reversed([e.name for e in [target] + [a for a, _ in target.iter_ancestors()]])) + f"/extra{i}"
+            if not p.resolve(path) or path not in {b.get("nodeset") for b in p.binds()}:
+                ctx.viol("multistep:added-child-not-bound-at-its-place", f"{path} missing from instance or binds after add_child + re-render", W(step="add legit child after render"))
+        except PyXFormError as e:
+            ctx.viol("multistep:legit-addition-refused", str(e)[:200], W(step="add legit child after render"))
+        # (2) a duplicate sibling added after a render must be refused by the next render
+        dup_name = rng.choice(["phone", "Phone", "PHONE"])
+        contact.add_child(apiseq.question({"type": "text", "name": dup_name, "label": "dup"}))
+        try:
+            x = sv.to_xml(validate=False)
+            ctx.viol("multistep:duplicate-sibling-accepted-after-first-render", f"a second '{dup_name}' next to 'phone' added after the first render was converted; duplicate siblings in output: "
+                     f"{[k for k, _ in invariants.c02_closure(xf.Parsed(x))][:3]}", W(step="add duplicate sibling after render"))
+        except PyXFormError:
+            ctx.ctr("multistep_duplicate_refused")
 
 
 def replay(w):
